@@ -9,6 +9,7 @@
 //   stopper after_us=<n>                                                     thread calling request_stop
 //   timer <tid> acts=<a0>/<a1>/...      scripted scheduler node; a_k = ops joined by '+', run in activation k
 //                                       (k = 0 the start hook); ops: rel.<us> abs.<us> wall.<us> spin.<us> lag.<us> stop -
+//                                       [tail=<ops> tailn=<n>]: ops of the next n activations after the scripted ones
 //   sched <th>:<gate>,<th>:<gate>,...   replay: interleaving of critical sections (th: e | p<pid> | s)
 //   run
 //
@@ -68,6 +69,8 @@ namespace
     {
         long                                  tid{0};
         std::vector<std::vector<std::string>> acts;
+        std::vector<std::string>              tail;   // ops of every activation after the scripted ones ...
+        long                                  tailn{0};  // ... for this many further activations
     };
     struct Step
     {
@@ -404,11 +407,13 @@ namespace
 
     void run_acts(const TimerSpec &sp, long k, const NodeView &view, DateTime now)
     {
-        if (k >= static_cast<long>(sp.acts.size())) { return; }
+        const long nacts = static_cast<long>(sp.acts.size());
+        if (k >= nacts + sp.tailn) { return; }
+        const std::vector<std::string> &ops = k < nacts ? sp.acts[static_cast<std::size_t>(k)] : sp.tail;
         const NodeScheduler sched{view.scheduler_state(), view.graph_value(), view.node_index(), now, view.started(),
                                   view.evaluation_clock(), /*supports_wall_clock=*/true};
         long                nreq = 0;
-        for (const std::string &op : sp.acts[static_cast<std::size_t>(k)])
+        for (const std::string &op : ops)
         {
             auto       parts = split(op, '.');
             const auto name  = parts.at(0);
@@ -936,6 +941,8 @@ int main(int, char **)
                 TimerSpec t;
                 t.tid = std::stol(l.pos.at(1));
                 for (auto &a : split(l.gets("acts", "-"), '/')) { t.acts.push_back(split(a, '+')); }
+                if (l.has("tail")) { t.tail = split(l.gets("tail"), '+'); }
+                t.tailn = l.geti("tailn", 0);
                 scn->timers.push_back(t);
             }
             else if (cmd == "sched")
